@@ -306,14 +306,23 @@ func leak(msg string, protected []string) (string, bool) {
 	if len(msg) < leakLen {
 		return "", false
 	}
+	// the windows of the (short) message, exact and lower-cased, so that long
+	// protected lines cost one lookup per position
 	lmsg := strings.ToLower(msg)
+	exact, lower := map[string]bool{}, map[string]bool{}
+	for i := 0; i+leakLen <= len(msg); i++ {
+		exact[msg[i:i+leakLen]] = true
+	}
+	for i := 0; i+leakLen <= len(lmsg); i++ {
+		lower[lmsg[i:i+leakLen]] = true
+	}
 	for _, p := range protected {
 		lp := strings.ToLower(p)
 		for i := 0; i+leakLen <= len(p); i++ {
-			if strings.Contains(msg, p[i:i+leakLen]) {
+			if exact[p[i:i+leakLen]] {
 				return p[i : i+leakLen], true
 			}
-			if strings.Contains(lmsg, lp[i:i+leakLen]) {
+			if i+leakLen <= len(lp) && lower[lp[i:i+leakLen]] {
 				return lp[i : i+leakLen], true
 			}
 		}
